@@ -1,7 +1,12 @@
 import Dasp.Driver.Loop
+import Dasp.Driver.Rms
 open Dasp.Driver
 
--- stub: replaced when property C11 is wired in
 def main : IO Unit := runDriver fun
+  | "rms" :: rest => rmsLine rest
+  | "rms_nostd" :: rest => rmsLine rest
+  | "sig" :: rest => sigLine rest
+  | "sqrt" :: rest => sqrtLine rest
+  | "sqrt_nostd" :: rest => sqrtLine rest
   | [] => ""
   | _ => "bad-op"
